@@ -216,6 +216,83 @@ func (x *gen) tape(n, words, style int) []uint32 {
 	return t
 }
 
+// collisionPairOps: two DIFFERENT recipes whose fields print alike (the same characters split
+// differently into required sets, a digit moved between a flag word and the start of a custom
+// string, …), evaluated one after the other in the same process: a memo table keyed by a lossy
+// rendering of the recipe gives the second the first one's answer.
+func (x *gen) collisionPairOps() {
+	var a, b recipeSpec
+	a.L = 2 + x.g.intn(5)
+	switch x.g.intn(4) {
+	case 0:
+		a.rs = []string{"a", "b"}
+		a.ac = "xyz"
+		b = a
+		b.rs = []string{"a b"}
+	case 1:
+		a.allow, a.exclude, a.ac = 3, 16, "xyz"
+		b = a
+		b.exclude, b.ac = 1, "6xyz"
+	case 2:
+		a.rs = []string{"ab", "c"}
+		a.ac = "0123"
+		b = a
+		b.rs = []string{"a", "bc"}
+	default:
+		a.require, a.ac, a.ec = 4, "qrs", "1"
+		b = a
+		b.require, b.ac = 0, "4qrs"
+		b.rs = []string{"0123456789"}
+	}
+	if x.g.chance(50) {
+		a, b = b, a
+	}
+	for _, r := range []recipeSpec{a, b, a} {
+		x.emit("charinfo r=%s", r.enc())
+		x.chargenOp(r, "")
+	}
+}
+
+// sameLeadRecipe: required and allowed characters that share a UTF-8 lead byte (and so differ
+// only in their continuation bytes), with a tape aimed at candidates that miss the required one.
+var leadGroups = [][]string{
+	{"é", "ü", "ß", "ñ", "à", "ö"},       // lead byte 0xC3
+	{"λ", "α", "β", "γ", "δ", "ο"},       // 0xCE
+	{"→", "←", "↑", "↓", "€"},            // 0xE2
+	{"日", "本", "旦", "旧"},                // 0xE6
+	{"😀", "😁", "🙂", "𝄞"},                // 0xF0
+	{"Ã", "é", "a", "©"},                 // a Latin-1 letter equal to another character's lead byte
+}
+
+func (x *gen) sameLeadOp() {
+	g := leadGroups[x.g.intn(len(leadGroups))]
+	var r recipeSpec
+	r.L = 1 + x.g.intn(4)
+	req := g[x.g.intn(len(g))]
+	r.rs = []string{req}
+	for _, c := range g {
+		if c != req && x.g.chance(70) {
+			r.ac += c
+		}
+	}
+	if x.g.chance(30) {
+		r.ac += "a"
+	}
+	if r.ac == "" {
+		r.ac = g[(x.g.intn(len(g)-1)+1)%len(g)]
+	}
+	n := alphabetSize(r)
+	if n == 0 {
+		return
+	}
+	// candidates that avoid the required character: cycle over all indices, several attempts
+	t := x.tape(n, r.L*4, []int{0, 1, 2, 4}[x.g.intn(4)])
+	x.emit("chargen r=%s T=3 fr=1:1 tape=%s", r.enc(), encWords(t))
+	if x.g.chance(30) {
+		x.emit("charinfo r=%s", r.enc())
+	}
+}
+
 func (x *gen) chargenOp(r recipeSpec, extraArgs string) {
 	b := x.budget()
 	T := budgetT(b)
@@ -378,7 +455,9 @@ var wordPool = []string{"one", "two", "three", "polish", "Polish", "One", "ONE",
 	"x-y", "X-Y", "don't", "123", "4", "ǆ", "ǅ", "Ǆ", "ß", "日本", "élan", "Élan", "ñu", "syl", "lab", "bull", "gen", "er", "at", "or",
 	"w1", "W1", "über", "Über", "o'neil", "O'Neil", "z", "Z", "correct", "horse", "battery", "staple",
 	// letters whose title-cased form has a different UTF-8 length (2->1, 2->1, 2->3, 3->2 bytes)
-	"ıx", "ſix", "ɐb", "ⱥb"}
+	"ıx", "ſix", "ɐb", "ⱥb",
+	// entries that differ only in surrounding white space (CRLF files, stray blanks) are different words
+	"horse\r", " horse", "horse ", "lab\t", "one\n", "\u00a0one"}
 
 // words that all change under strings.Title, including pairs of distinct words that share one
 // title-cased form (outside the premise of C04/C06, but inside C08/C10)
@@ -548,6 +627,36 @@ func (x *gen) wlgenOp(op string, extraArgs string) {
 	}
 	t := x.wlTape(len(words), L, sep, x.g.intn(6))
 	x.emit("%s %s L=%d sep=%s cap=%s%s tape=%s%s", op, wa, L, sep, encCps(scheme), x.budget(), encWords(t), extraArgs)
+}
+
+// longCapsOp: a capitalising scheme over many positions (more than 32, more than 64), every
+// word capitalisable, so that every coin flip and the 'one' position are visible in the output.
+func (x *gen) longCapsOp() {
+	words := []string{"a", "b", "c"}[:1+x.g.intn(3)]
+	L := []int{2, 31, 32, 33, 40, 63, 64, 65, 70, 100}[x.g.intn(10)]
+	scheme := []string{"random", "one"}[x.g.intn(2)]
+	var t []uint32
+	switch x.g.intn(3) {
+	case 0: // every coin heads / the last position
+		for i := 0; i < 2*L+4; i++ {
+			t = append(t, 0xFFFFFFFF)
+		}
+		if scheme == "one" {
+			t[0] = uint32(L - 1)
+			for i := 1; i < len(t); i++ {
+				t[i] = 0
+			}
+		}
+	case 1:
+		for i := 0; i < 2*L+4; i++ {
+			t = append(t, x.g.u32())
+		}
+	default: // alternate heads and tails
+		for i := 0; i < 2*L+4; i++ {
+			t = append(t, uint32(i%2))
+		}
+	}
+	x.emit("wlgen words=%s titles=%s L=%d sep=char:_ cap=%s tape=%s", encList(words), encList(wordTitles(words)), L, encCps(scheme), encWords(t))
 }
 
 func (x *gen) wlnewOp(reps int) {
@@ -1083,16 +1192,22 @@ func generate(prop, tier string, seed uint64) []string {
 	case "C01":
 		rep(3000, x.drawOp)
 		rep(400, x.sourceOp)
+		// the draws as the generators make them: characters, words, the 'one' position, coin flips
+		rep(40, func() { x.chargenOp(x.recipe(1), "") })
+		rep(60, func() { x.longCapsOp() })
 	case "C02":
+		rep(60, x.sameLeadOp)
 		rep(40, func() { x.cellOps(1500) })
 		rep(400, func() { x.chargenOp(x.recipe(1), "") })
 		rep(300, func() { x.chargenOp(x.recipe(0), "") })
 	case "C03":
+		rep(80, x.sameLeadOp)
 		rep(600, func() { x.charinfoOp(x.recipe(x.g.intn(4))) })
 		rep(900, func() { x.chargenOp(x.recipe(x.g.intn(4)), "") })
 		// every flag combination of one field against random others (a seed-permuted slice)
 		rep(300, func() { x.charinfoOp(x.recipe(2)) })
 	case "C04":
+		rep(40, x.longCapsOp)
 		rep(25, func() { x.wlCellOps(1200) })
 		rep(700, func() { x.wlgenOp("wlgen", "") })
 	case "C05":
@@ -1105,6 +1220,7 @@ func generate(prop, tier string, seed uint64) []string {
 		rep(300, func() { x.wlgenOp("wlent", "") })
 		rep(15, func() { x.wlCellOps(600) })
 	case "C07":
+		rep(8, x.collisionPairOps)
 		rep(1200, func() { x.charinfoOp(x.recipe(3)) })
 		rep(400, func() { x.charinfoOp(x.recipe(0)) })
 	case "C08":
@@ -1136,6 +1252,7 @@ func generate(prop, tier string, seed uint64) []string {
 		rep(200, func() { x.wlgenOp("wlgen", "") })
 		x.presetCells()
 	case "C15":
+		rep(8, x.collisionPairOps)
 		rep(60, func() { x.historyOps(25) })
 	case "C16":
 		x.presetCells()
